@@ -534,6 +534,97 @@ MUTANTS = [
     M("benign-decode-deferred-returned-as-a-chain", NODE,
       "        d.addCallback(_process)\n        return d\n\n    def _check_ciphertext_hash(",
       "        return d.addCallback(_process)\n\n    def _check_ciphertext_hash(", None),
+    # ---- C01.17 no way from read() to the consumer around Segmentation
+    M("whole-read-of-a-small-file-hands-over-segment-0", FN,
+      "        decryptor = DecryptingConsumer(consumer, self._readkey, offset)\n        d = self._cnode.read(decryptor, offset, size)\n",
+      "        filesize = self.get_size()\n"
+      "        if (offset == 0 and (size is None or size >= filesize)\n"
+      "            and 0 < filesize <= 1024*1024):\n"
+      "            # small file, whole-file read: one segment, nothing to trim\n"
+      "            return self._read_single_segment(consumer)\n"
+      "        decryptor = DecryptingConsumer(consumer, self._readkey, offset)\n        d = self._cnode.read(decryptor, offset, size)\n",
+      "C01.17",
+      edits=[(FN, "    def raise_error(self):\n        pass\n\n    def get_write_uri(self):\n",
+              "    def _read_single_segment(self, consumer):\n"
+              "        decryptor = DecryptingConsumer(consumer, self._readkey, 0)\n"
+              "        (d, c) = self._cnode.get_segment(0)\n"
+              "        def _got_segment(res):\n"
+              "            (segment_start, ciphertext, decodetime) = res\n"
+              "            decryptor.write(ciphertext)\n"
+              "            return consumer\n"
+              "        d.addCallback(_got_segment)\n"
+              "        return d\n\n"
+              "    def raise_error(self):\n        pass\n\n    def get_write_uri(self):\n")]),
+    M("read-within-the-guessed-first-segment-skips-segmentation", NODE,
+      "        s = Segmentation(self, offset, size, consumer, read_ev, lp)\n",
+      "        if offset == 0 and size <= self.guessed_segment_size:\n"
+      "            # the range lies in the first segment: fetch it and cut\n"
+      "            (d0, c0) = self.get_segment(0, lp)\n"
+      "            d0.addCallback(lambda res: consumer.write(res[1][:size]))\n"
+      "            d0.addCallback(lambda ign: consumer)\n"
+      "            return d0\n"
+      "        s = Segmentation(self, offset, size, consumer, read_ev, lp)\n", "C01.17"),
+    M("ciphertext-node-answers-whole-file-reads-from-a-first-segment-cache", FN,
+      "        self._maybe_create_download_node()\n        return self._node.read(consumer, offset, size)\n",
+      "        self._maybe_create_download_node()\n"
+      "        cached = getattr(self._node, \"_segment0\", None)\n"
+      "        if cached is not None and offset == 0 and size is None:\n"
+      "            consumer.write(cached)\n"
+      "            return defer.succeed(consumer)\n"
+      "        return self._node.read(consumer, offset, size)\n", "C01.17"),
+    M("empty-read-shortcut-tests-falseness-of-size", FN,
+      "        decryptor = DecryptingConsumer(consumer, self._readkey, offset)\n        d = self._cnode.read(decryptor, offset, size)\n",
+      "        if not size:\n            # nothing to do (but size=None means 'to the end')\n            return defer.succeed(consumer)\n"
+      "        decryptor = DecryptingConsumer(consumer, self._readkey, offset)\n        d = self._cnode.read(decryptor, offset, size)\n",
+      "C01.17"),
+    M("benign-empty-read-answered-by-the-filenode", FN,
+      "        decryptor = DecryptingConsumer(consumer, self._readkey, offset)\n        d = self._cnode.read(decryptor, offset, size)\n",
+      "        if size == 0:\n            return defer.succeed(consumer)\n"
+      "        decryptor = DecryptingConsumer(consumer, self._readkey, offset)\n        d = self._cnode.read(decryptor, offset, size)\n",
+      None),
+    M("benign-ciphertext-node-in-a-local", FN,
+      "        d = self._cnode.read(decryptor, offset, size)\n",
+      "        cnode = self._cnode\n        d = cnode.read(decryptor, offset, size)\n", None),
+    M("benign-segmentation-started-where-it-is-built", NODE,
+      "        s = Segmentation(self, offset, size, consumer, read_ev, lp)\n", "", None,
+      edits=[(NODE, "        d = s.start()\n        def _done(res):\n            read_ev.finished(now())\n",
+              "        d = Segmentation(self, offset, size, consumer, read_ev, lp).start()\n"
+              "        def _done(res):\n            read_ev.finished(now())\n")]),
+    # ---- C01.7 (also C02.12 / C04.5) provenance of the AES-CTR context
+    M("decryptor-of-the-previous-read-handed-to-the-next-consumer", FN,
+      "    def __init__(self, consumer, readkey, offset):\n        self._consumer = consumer\n        self._read_ev = None\n        self._download_status = None\n",
+      "    def __init__(self, consumer, readkey, offset, decryptor=None):\n        self._consumer = consumer\n        self._read_ev = None\n        self._download_status = None\n"
+      "        if decryptor is not None:\n            self._decryptor = decryptor\n            return\n", "C01.7",
+      edits=[(FN, "        decryptor = DecryptingConsumer(consumer, self._readkey, offset)\n        d = self._cnode.read(decryptor, offset, size)\n",
+              "        resume = None\n"
+              "        ks = getattr(self, \"_keystream\", None)\n"
+              "        if ks is not None and ks[0] == offset:\n            resume = ks[1]\n"
+              "        self._keystream = None\n"
+              "        decryptor = DecryptingConsumer(consumer, self._readkey, offset, resume)\n"
+              "        d = self._cnode.read(decryptor, offset, size)\n"
+              "        def _finished(res):\n"
+              "            if size is not None:\n                self._keystream = (offset + size, decryptor._decryptor)\n"
+              "            return res\n"
+              "        d.addBoth(_finished)\n")]),
+    M("decryptor-kept-on-the-consumer-between-reads", FN,
+      "        self._decryptor = aes.create_decryptor(readkey, iv)\n",
+      "        self._decryptor = consumer.__dict__.setdefault(\"_ctr\", aes.create_decryptor(readkey, iv))\n", "C01.7"),
+    M("filenode-swaps-in-the-decryptor-it-kept", FN,
+      "        decryptor = DecryptingConsumer(consumer, self._readkey, offset)\n        d = self._cnode.read(decryptor, offset, size)\n",
+      "        decryptor = DecryptingConsumer(consumer, self._readkey, offset)\n"
+      "        kept = getattr(self, \"_kept\", None)\n"
+      "        if kept is not None and kept[0] == offset:\n            decryptor._decryptor = kept[1]\n"
+      "        d = self._cnode.read(decryptor, offset, size)\n", "C01.7"),
+    M("residue-consumed-only-when-more-than-one-byte", FN,
+      "        aes.decrypt_data(self._decryptor, b\"\\x00\" * offset_small)\n",
+      "        if offset_small > 1:\n            aes.decrypt_data(self._decryptor, b\"\\x00\" * offset_small)\n", "C01.7"),
+    M("benign-residue-skipped-when-zero", FN,
+      "        aes.decrypt_data(self._decryptor, b\"\\x00\" * offset_small)\n",
+      "        if offset_small:\n            aes.decrypt_data(self._decryptor, b\"\\x00\" * offset_small)\n", None),
+    M("benign-decrypting-consumer-takes-a-log-parent", FN,
+      "    def __init__(self, consumer, readkey, offset):\n        self._consumer = consumer\n        self._read_ev = None\n",
+      "    def __init__(self, consumer, readkey, offset, logparent=None):\n        self._consumer = consumer\n        self._lp = logparent\n        self._read_ev = None\n",
+      None),
     # ---- vanished anchor
     M("vanish-read-encrypted", UPL, "    def read_encrypted(self, length, hash_only):", "    def read_ciphertext(self, length, hash_only):",
       "ANALYSIS-ERROR"),
